@@ -10,6 +10,13 @@ granted and that no operation history of practical size can exhibit:
   the containers) as functions of their arguments, which a hidden static buffer breaks only when two
   threads are inside at once.
 
+* the formatting macro DYNAMIC_VSPRINTF of src/internal/qinternal.h (behind qstrdupf / qstrcatf, the
+  putstrf of the containers, qaconf's error message and qconfig's `section.key` names): the size of
+  the first block, the factor of the `*=` growth step (0 when the step has another form) and the
+  blank-normalised text of the whole macro - the models transcribe "1024, doubled until the text
+  fits with its terminator"; a rewrite that stops fitting only for some exact lengths (a hang)
+  passes every test that does not hit such a length.
+
 Emits lean/QlibcModel/Generated/Shapes.lean; the obligations are in lean/QlibcModel/Shapes/*.lean
 (one small module per family so that a change alarms only the checks of that family)."""
 import os, re, subprocess, sys, tempfile
@@ -21,7 +28,7 @@ FIELDS = [
     ("hashtbl", "obj_hash", "((qhashtbl_obj_t*)0)->hash"), ("hashtbl", "obj_size", "((qhashtbl_obj_t*)0)->size"),
     ("hashtbl", "tbl_num", "((qhashtbl_t*)0)->num"), ("hashtbl", "tbl_range", "((qhashtbl_t*)0)->range"),
     ("listtbl", "obj_hash", "((qlisttbl_obj_t*)0)->hash"), ("listtbl", "obj_size", "((qlisttbl_obj_t*)0)->size"),
-    ("listtbl", "tbl_num", "((qlisttbl_t*)0)->num"),
+    ("listtbl", "tbl_num", "((qlisttbl_t*)0)->num"), ("listtbl", "data_size", "((qlisttbl_data_t*)0)->size"),
     ("seq", "list_obj_size", "((qlist_obj_t*)0)->size"), ("seq", "list_num", "((qlist_t*)0)->num"), ("seq", "list_max", "((qlist_t*)0)->max"),
     ("seq", "list_datasum", "((qlist_t*)0)->datasum"),
     ("seq", "vector_num", "((qvector_t*)0)->num"), ("seq", "vector_max", "((qvector_t*)0)->max"), ("seq", "vector_objsize", "((qvector_t*)0)->objsize"),
@@ -104,6 +111,22 @@ def statics_of(repo, rel):
     return out
 
 
+def fmt_macro(repo):
+    """(initial size, growth factor, normalised text) of DYNAMIC_VSPRINTF in the current header"""
+    src = open(os.path.join(repo, "src/internal/qinternal.h")).read()
+    m = re.search(r"^#define\s+DYNAMIC_VSPRINTF\b(.*?[^\\])$", src.replace("\\\n", "\x01"), re.M | re.S)
+    if not m:
+        die("DYNAMIC_VSPRINTF not found in src/internal/qinternal.h")
+    text = " ".join(m.group(1).replace("\x01", " ").split())
+    loop = re.search(r"for\s*\(\s*(\w+)\s*=\s*(\d+)\s*;\s*;\s*(\w+)\s*\*=\s*(\d+)\s*\)", text)
+    if loop and loop.group(1) == loop.group(3):
+        init, grow = int(loop.group(2)), int(loop.group(4))
+    else:
+        m0 = re.search(r"=\s*(\d+)\s*;", text)
+        init, grow = (int(m0.group(1)) if m0 else 0), 0
+    return {"init": init, "grow": grow, "text": text}
+
+
 def extract(repo):
     w = widths(repo)
     st = {}
@@ -112,7 +135,7 @@ def extract(repo):
         for rel in SOURCES[fam]:
             acc += [(os.path.basename(rel), d) for d in statics_of(repo, rel)]
         st[fam] = acc
-    return {"widths": w, "statics": st}
+    return {"widths": w, "statics": st, "fmt": fmt_macro(repo)}
 
 
 def lstr(s):
@@ -130,6 +153,13 @@ def render(d):
         L.append("/-- function-local `static` objects that are not `const` in the preprocessed sources of this family -/")
         L.append("def %sStatics : List (String × String) := [%s]" % (fam, ", ".join("(%s, %s)" % (lstr(f), lstr(x)) for f, x in d["statics"][fam])))
         L.append("")
+    f = d["fmt"]
+    L.append("/-- DYNAMIC_VSPRINTF (src/internal/qinternal.h): size of the first block, factor of the `*=` step of the")
+    L.append("    retry loop (0: the step has another form), blank-normalised text of the macro -/")
+    L.append("def fmtInitSize : Nat := %d" % f["init"])
+    L.append("def fmtGrowFactor : Nat := %d" % f["grow"])
+    L.append("def fmtMacroText : String := %s" % lstr(f["text"]))
+    L.append("")
     L.append("end Qlibc.Generated.Shapes")
     return "\n".join(L) + "\n"
 
